@@ -421,6 +421,42 @@ class SStr:
                 raise AnalysisError("slice into a repeated piece")
         return SStr(pieces)
 
+    def split(self, sep: str | None = None) -> list:
+        """str.split for strings whose atoms cannot contain a separator character."""
+        seps = WS if sep is None else sep
+        if sep is not None and len(sep) != 1:
+            raise AnalysisError("split on a multi-character separator of a symbolic string")
+        for p in self.pieces:
+            if isinstance(p, Atom):
+                if not all(c in p.excludes for c in seps):
+                    raise Undecided(f"{p.describe()} contains a separator of split({sep!r})")
+            elif not isinstance(p, str):
+                raise AnalysisError("split over a repeated piece")
+        fields: list[list] = [[]]
+        for p in self.pieces:
+            if isinstance(p, Atom):
+                fields[-1].append(p)
+                continue
+            cur = ""
+            for ch in p:
+                if ch in seps:
+                    if cur:
+                        fields[-1].append(cur)
+                        cur = ""
+                    fields.append([])
+                else:
+                    cur += ch
+            if cur:
+                fields[-1].append(cur)
+        out = [SStr(f) for f in fields]
+        if sep is None:
+            out = [f for f in out if f.pieces]
+            # an atom that may be empty could vanish: only when it stands alone in its field
+            for f in out:
+                if all(isinstance(x, Atom) and not x.nonempty for x in f.pieces):
+                    raise Undecided(f"field {f.describe()} of split() may be empty")
+        return [f.concrete() if f.is_concrete() else f for f in out]
+
     def contains_char(self, c: str) -> bool:
         assert len(c) == 1
         unknown = False
